@@ -26,6 +26,8 @@
 (***************************************************************************)
 EXTENDS ULFsm, Integers, TLC
 
+CONSTANT ReadMax     \* bytes one read of the socket returns at most (the provider's own maximum PDU length); 0 = everything that has arrived
+
 VARIABLES
   isReq,     \* TRUE: association requestor (no socket at birth)
   st,        \* 1..13
@@ -148,7 +150,7 @@ Iterate(rcv, src, wireF, indF, asInvalid, dimseFail, msgInd, sendFail) ==
   (* sendFail: the action's write hits a dead transport: nothing is sent or indicated, the state  *)
   (* does not change, the connection is closed and the transport-closed event is raised.          *)
   LET doRcv == rcv /\ Readable /\ st # 4
-      n     == IF doRcv THEN rx ELSE 0
+      n     == IF doRcv THEN (IF ReadMax = 0 \/ rx <= ReadMax THEN rx ELSE ReadMax) ELSE 0
       eof   == doRcv /\ rx = 0
       discard == doRcv /\ st = 13                     \* DEV-STA13-DISCARD
       r     == IF discard THEN raw ELSE raw + n
@@ -182,7 +184,7 @@ Iterate(rcv, src, wireF, indF, asInvalid, dimseFail, msgInd, sendFail) ==
      /\ slot' = newSlot
      /\ stream' = IF src = "frame" THEN Tail(stream) ELSE stream
      /\ raw' = IF src = "frame" THEN r - fr.len ELSE r
-     /\ rx' = IF doRcv THEN 0 ELSE rx
+     /\ rx' = rx - n
      /\ gen' = IF src # "user" THEN gen
                ELSE IF gen # <<>> THEN Tail(gen)
                ELSE IF Head(uq).k = "GEN" THEN Tail(Head(uq).frags) ELSE gen
